@@ -840,6 +840,23 @@ pub fn run_c17<H: HB>(tier: Tier) -> Outcome {
     if !out.violations.is_empty() {
         return out;
     }
+    {
+        let t0 = Instant::now();
+        let (ml, ma) = if q { (40, 40) } else { (130, 70) };
+        let mut cases = 0;
+        let mut viol = vec![];
+        for d in [false, true] {
+            let r = if d { capacity_grid::<DPQ<H>>(ml, ma) } else { capacity_grid::<PQ<H>>(ml, ma) };
+            match r {
+                Ok(c) => cases += c,
+                Err((hist, e)) => viol.push(Case { prop: prop.into(), hasher: H::NAME.into(), double: d, root: Root::New, ops: hist[..hist.len() - 1].to_vec(), last: hist.last().cloned(), probe: None, detail: e, universe: vec![], aux: None, trail: vec![], params: vec![] }),
+            }
+        }
+        absorb_post(&mut out, &format!("capacity grid: queues of 0..={ml} elements grown by pushes (plain / shrunk then pushed / grown then popped) x every reservation call x every amount 0..={ma}"), cases, viol, t0, json!({}));
+        if !out.violations.is_empty() {
+            return out;
+        }
+    }
     for n in if q { vec![8usize, 16] } else { vec![7, 8, 9, 16, 17, 33] } {
         let mut c = seeds_cfg(prop, n, &REL_BIN, A_CAPACITY | A_CAPACITY_HUGE | A_POP | A_PUSH);
         c.deep = true;
@@ -851,6 +868,61 @@ pub fn run_c17<H: HB>(tier: Tier) -> Outcome {
         }
     }
     out
+}
+
+/// C17: a fully enumerated grid of (history shape, length, amount, call): queues grown by pushes
+/// (so that the three internal tables have their natural, different capacities), optionally
+/// shrunk and pushed again, then every reservation call with every amount 0..=A.
+fn capacity_grid<Q: QueueLike>(max_len: usize, max_amount: usize) -> Result<u64, (Vec<Op>, String)> {
+    let mut cases = 0;
+    for shape in 0..3 {
+        for len in 0..=max_len {
+            // shape 0: len pushes; 1: len pushes, shrink_to_fit, one more push; 2: 2*len pushes, len pops
+            let mut hist: Vec<Op> = vec![];
+            let total = if shape == 2 { 2 * len } else { len };
+            for i in 0..total {
+                hist.push(Op::Push(i as u32, 0, (i * 7 % 11) as i32));
+            }
+            if shape == 1 {
+                hist.push(Op::ShrinkToFit);
+                hist.push(Op::Push(1000, 0, 3));
+            }
+            if shape == 2 {
+                for _ in 0..len {
+                    hist.push(Op::PopHi);
+                }
+            }
+            let mut base = Q::q_new();
+            let mut m = Model::new();
+            let mut un = false;
+            for op in &hist {
+                step(&mut base, op, &mut m, &mut un).map_err(|e| (hist.clone(), e))?;
+            }
+            for amount in 0..=max_amount {
+                for op in [Op::Reserve(amount), Op::ReserveExact(amount), Op::TryReserve(amount), Op::TryReserveExact(amount)] {
+                    cases += 1;
+                    let mut q = base.clone();
+                    let mut mm = m.clone();
+                    let mut h2 = hist.clone();
+                    h2.push(op.clone());
+                    let r = std::panic::catch_unwind(std::panic::AssertUnwindSafe(|| step(&mut q, &op, &mut mm, &mut un)));
+                    match r {
+                        Err(e) => return Err((h2, format!("{op:?} on a queue of {} panicked: {}", m.len(), panic_text(&e)))),
+                        Ok(Err(e)) => return Err((h2, e)),
+                        Ok(Ok(_)) => {}
+                    }
+                    let s = q.snap();
+                    check_state(&q, &s, &m, false, &[]).map_err(|e| (h2.clone(), format!("after {op:?}: {e}")))?;
+                    // and the queue keeps working: fill the reserved room
+                    for j in 0..amount.min(6) {
+                        let o = Op::Push(5000 + j as u32, 0, j as i32);
+                        step(&mut q, &o, &mut mm, &mut un).map_err(|e| (h2.clone(), format!("push after {op:?}: {e}")))?;
+                    }
+                }
+            }
+        }
+    }
+    Ok(cases)
 }
 
 pub fn run_c18(tier: Tier) -> Outcome {
